@@ -32,6 +32,10 @@ def cases(tier, seed):
                     if N >= 2 and mo == "single" and mom in ("sym", 0.5):
                         # the same history split over two successive Calibration contexts must give the same averages
                         out.append(dict(kind="ema", act=a, model=mo, momentum=mom, N=N, split=1))
+    if tier == "quick":
+        # a quantized LayerNorm fed a float input (its qforward does not quantize the input itself)
+        out.append(dict(kind="ema", act="qint8", model="lnorm", momentum=0.5, N=1))
+        out.append(dict(kind="ema", act="qint8", model="lnorm", momentum="sym", N=2))
     return out
 
 
